@@ -30,6 +30,66 @@ def norm(s):
     return re.sub(r"\s+", "", s or "")
 
 
+def split_top(s):
+    """split at the commas that are not inside (), <>, {} or []"""
+    out, depth, cur = [], 0, ""
+    for ch in s:
+        if ch in "([{<":
+            depth += 1
+        elif ch in ")]}>":
+            depth -= 1
+        if ch == "," and depth == 0:
+            out.append(cur.strip())
+            cur = ""
+        else:
+            cur += ch
+    if cur.strip():
+        out.append(cur.strip())
+    return out
+
+
+def inline_void_helper(src, body, name):
+    """`body` with every statement `name(args);` replaced by the body of the member function `void name(params)` with the
+    parameters substituted by the arguments. A one-use private helper is an implementation detail: what the model
+    describes is the statement sequence of the caller, whether written through the helper or inline. Unchanged when the
+    helper (or a call of it as a statement) does not exist."""
+    if body is None:
+        return body
+    sig = re.search(r"\bvoid\s+" + re.escape(name) + r"\s*\(([^)]*)\)\s*(?:const\s*)?(?:noexcept\s*)?\{", src)
+    if not sig:
+        return body
+    hb = func_body(src, r"\bvoid\s+" + re.escape(name) + r"\s*\([^)]*\)\s*(?:const\s*)?(?:noexcept\s*)?\{")
+    if hb is None:
+        return body
+    params = [re.findall(r"[A-Za-z_]\w*", x)[-1] for x in split_top(sig.group(1)) if re.findall(r"[A-Za-z_]\w*", x)]
+    out, pos = "", 0
+    for m in re.finditer(r"(?<![\w.>:])" + re.escape(name) + r"\s*\(", body):
+        if m.start() < pos:
+            continue
+        depth, j = 0, m.end() - 1
+        while j < len(body):
+            if body[j] == "(":
+                depth += 1
+            elif body[j] == ")":
+                depth -= 1
+                if depth == 0:
+                    break
+            j += 1
+        tail = re.match(r"\s*;", body[j + 1:])
+        args = split_top(body[m.end():j])
+        if not tail or len(args) != len(params):
+            continue
+        inl = hb
+        # simultaneous substitution of the parameters
+        def sub(mm, table=dict(zip(params, args))):
+            return table[mm.group(0)]
+        if params:
+            inl = re.sub(r"(?<![\w.>])(?:" + "|".join(re.escape(x) for x in params) + r")\b", sub, inl)
+        out += body[pos:m.start()] + inl
+        pos = j + 1 + tail.end()
+    return out + body[pos:]
+
+
 def extract(repo, failures):
     raw = read(repo, H)
     src = strip_cpp_comments(raw)
@@ -74,13 +134,22 @@ def extract(repo, failures):
     facts["dailyBounds23_59"] = ("first>std::chrono::hours{23}" in b and "second>std::chrono::minutes{59}" in b)
 
     # ---- write_log -------------------------------------------------------------------------------
-    wl = norm(func_body(src, r"void\s+write_log\s*\([^{;]*\)\s*override\s*\{"))
+    # The size step may be written through the one-use helper `_size_rotation(size, ts)` or inline: the helper is inlined
+    # (parameters substituted) before anything is matched, so both spellings give the same text.
+    wl_raw = func_body(src, r"void\s+write_log\s*\([^{;]*\)\s*override\s*\{")
+    wl = norm(inline_void_helper(src, wl_raw, "_size_rotation"))
     i_t = wl.find("time_rotation=_time_rotation(log_timestamp)")
-    i_s = wl.find("_size_rotation(log_statement.size(),log_timestamp)")
+    # where the size step starts, whatever its comparison operator (the operator is `sizeTriggerStrictlyGreater`'s subject)
+    ms = re.search(r"if\(_file_size\+log_statement\.size\(\)", wl)
+    i_s = ms.start() if ms else -1
     i_w = wl.rfind("base_type::write_log(")
     i_a = wl.find("_file_size+=log_statement.size()")
     facts["timeThenSizeThenWrite"] = (0 <= i_t < i_s < i_w < i_a)
-    facts["sizeCheckGuard"] = "if(!time_rotation&&_config.rotation_max_file_size()!=0)" in wl
+    # the size step is the (whole) body of the block guarded by "no time rotation happened and a limit is configured"
+    size_guard = "if(!time_rotation&&_config.rotation_max_file_size()!=0){"
+    i_g = wl.find(size_guard)
+    facts["sizeCheckGuard"] = bool(i_g >= 0 and i_s == i_g + len(size_guard) and re.match(
+        r"if\(_file_size\+log_statement\.size\(\)[<>=!]+_config\.rotation_max_file_size\(\)\)\{_rotate_files\(log_timestamp\);\}\}", wl[i_s:]))
     facts["timeCheckGuard"] = "if(_config.rotation_frequency()!=RotatingFileSinkConfig::RotationFrequency::Disabled)" in wl
 
     # ---- _time_rotation --------------------------------------------------------------------------
@@ -98,8 +167,11 @@ def extract(repo, failures):
     facts["timeRotationReturnsTrueWhenDue"] = tr.endswith("returntrue;}returnfalse;")
 
     # ---- _size_rotation --------------------------------------------------------------------------
-    sr = norm(func_body(src, r"void\s+_size_rotation\s*\([^)]*\)\s*\{"))
-    facts["sizeTriggerStrictlyGreater"] = sr.startswith("if(_file_size+log_msg_size>_config.rotation_max_file_size()){_rotate_files(")
+    # (inlined into write_log above when it is a helper): rotate iff the file would grow beyond the limit, the record's
+    # timestamp goes to _rotate_files, and this is the only rotation write_log performs itself
+    facts["sizeTriggerStrictlyGreater"] = (
+        "if(_file_size+log_statement.size()>_config.rotation_max_file_size()){_rotate_files(log_timestamp);}" in wl
+        and wl.count("_rotate_files(") == 1)
 
     # ---- _rotate_files ---------------------------------------------------------------------------
     rf = norm(func_body(src, r"void\s+_rotate_files\s*\([^)]*\)\s*\{"))
